@@ -27,7 +27,8 @@ ASSUMPTIONS = [
     "the correspondence check exercises eager merging, plus (event gm) a merge held inside Merge while a local section is attempted: on the "
     "correct code the section waits for the merger (merge step atomic, as in the model); the theorems cover any merge timing",
     "payload-level oracle (owed / received / committed-state-kept / final equality on the real states through the real Merge) for GCounter and "
-    "LWWSet payloads; AWORSet payloads are checked through the tie and the section flag only (its Merge is not a semilattice: C12 known finding)",
+    "LWWSet payloads; AWORSet payloads are checked through the tie and the section flag only, on two-node meshes (its Merge is not a "
+    "semilattice - C12 known finding - so with 3+ nodes the order in which crdt.go merges the replies of a round changes the state)",
 ]
 RULE = ("cases = schedules from one PRNG (VERIF_SEED): payload GCounter (1/2), LWWSet (1/3) or AWORSet (1/6); 2-4 nodes in a full mesh (peer lists "
         "with or without the node itself, optionally naming an unreachable peer), 6-36 events of write (sets: add/remove over 2 elements, so "
@@ -47,6 +48,11 @@ SUBS = [[["w"], ["c"]], [["w"], ["a"]], [["c"]], [["a"]], [["w"]], [["w"], ["w"]
 def gen_schedule(rng, nev=None, typ=None):
     typ = typ or rng.choice(["gcounter", "gcounter", "gcounter", "lww", "lww", "aworset"])
     n = rng.randint(2, 4)
+    if typ == "aworset":
+        # AWORSet.Merge is not associative (C12 known finding): with 3+ nodes the order in which the replies of a
+        # round are merged (hashmap order in crdt.go) changes the state, which the model cannot predict; with two
+        # nodes every round has one reply
+        n = 2
     self_in = rng.random() < 0.4
     dead = rng.random() < 0.2
     elems = [1, 2]
